@@ -48,13 +48,18 @@ def build(p, a, units, prods):
             text_of[name(i)] = w
         else:
             w = first_spelling(prods, sy, k)
+            low = lambda x: {"shl": "sal", "repe": "repz", "repne": "repnz"}.get(x.lower(), x.lower())
             if w is None:
-                # nonterminal with structure of its own (string_*_opcode ...): its first alternative's first spelling
+                # nonterminal with structure of its own (string_*_opcode = <opcode table> <size keyword>): its first alternative,
+                # every symbol by its first spelling
                 sub = [q for q in prods if q.nt == sy]
-                w = first_spelling(prods, sub[0].syms[0]) if sub and len(sub[0].syms) == 1 else None
-                if w is None:
+                parts = [first_spelling(prods, x) for x in sub[0].syms] if sub else [None]
+                if not parts or any(x is None for x in parts):
                     return None
-            text_of[name(i)] = {"shl": "sal", "repe": "repz", "repne": "repnz"}.get(w.lower(), w.lower())
+                w = " ".join(parts)
+                text_of[name(i)] = " ".join(low(x) for x in parts)
+            else:
+                text_of[name(i)] = low(w)
         words.append(w)
     src = " ".join(words).replace(" ,", ",")
     if p.nt in ("jmps_loops",):
